@@ -189,7 +189,7 @@ def _split_case(seed):
         # which the group, the delimiter; given through the documented spec --read_group file:FILE[:READ_COL:GROUP_COL[:DELIM]]
         rng2 = random.Random(seed * 17 + 3)
         rcol, gcol = rng2.choice([(0, 1), (0, 1), (1, 0), (0, 2), (2, 1)])
-        delim = rng2.choice(["\t", "\t", ",", ";"])
+        delim = rng2.choice(["\t", "\t", ",", ";", " ", ", "])
         with open(tfile, "w") as f:
             f.write("#comment line\n")
             for r, g in table.items():
@@ -224,7 +224,7 @@ def replay_split(d):
     return (not p), "seed %s: %s" % (d["inputs"]["seed"], p or "every alignment grouped as the table says")
 
 
-@bounded("C09.read_group_table_split", ["C09"], shards=4, note="real prepare_read_groups / create_read_grouper for --read_group file:FILE[:READ_COL:GROUP_COL[:DELIM]] (column layouts 0:1, 1:0, 0:2, 2:1; tab, comma, semicolon) on a pysam-written BAM with 2-3 references where some reads "
+@bounded("C09.read_group_table_split", ["C09"], shards=4, note="real prepare_read_groups / create_read_grouper for --read_group file:FILE[:READ_COL:GROUP_COL[:DELIM]] (column layouts 0:1, 1:0, 0:2, 2:1; tab, comma, semicolon, blank, comma + blank) on a pysam-written BAM with 2-3 references where some reads "
          "align to several chromosomes (supplementary records), then the real per-chromosome ReadTableGrouper: every alignment of a read "
          "listed in the user's table must be grouped under the table's entry on every chromosome, unlisted reads under NA")
 def c09_split(tier, rng):
